@@ -338,6 +338,19 @@ pub fn run(case: &Case, ctx: &mut Ctx) -> CaseOutcome {
                 );
             }
             _ => {
+                if !r.sim.late_tasks.is_empty() && !r.sim.worker_panics.is_empty() {
+                    out.violate(
+                        "C18",
+                        "worker-panic-after-return",
+                        format!(
+                            "[{} k={}] Txtpp::run returned while pool tasks {:?} were still in their job; released, {:?} panicked",
+                            r.cfg.mode.name(),
+                            r.cfg.k,
+                            r.sim.late_tasks,
+                            r.sim.worker_panics
+                        ),
+                    );
+                }
                 if !r.sim.worker_panics.is_empty() {
                     out.violate("C18", "worker-panic", format!("worker task(s) panicked: {:?}", r.sim.worker_panics));
                 }
